@@ -22,7 +22,7 @@
 
 from abc import abstractmethod
 import datetime
-from typing import Any, Callable
+from typing import Any, Callable, ClassVar
 
 from dashlive.mpeg.mp4 import EventMessageBox
 from dashlive.server.options.dash_option import DashOption
@@ -49,14 +49,27 @@ class EventBase(ObjectWithFields):
     def create_emsg_boxes(self, **kwargs) -> list[EventMessageBox]:
         ...
 
+    # the range of the numbers that have one. Events repeat every interval
+    # ticks of the timescale, version is the version of the emsg box and
+    # program_id is a 16 bit field
+    INT_RANGES: ClassVar[dict[str, tuple[int, int | None]]] = {
+        'interval': (1, None),
+        'timescale': (1, None),
+        'version': (0, 1),
+        'program_id': (0, 0xFFFF),
+    }
+
     @staticmethod
-    def int_or_default_from_string(default: int, minimum: int = 0) -> Callable[[str], int]:
+    def int_or_default_from_string(default: int, minimum: int = 0,
+                                   maximum: int | None = None) -> Callable[[str], int]:
         def int_or_default(value: str):
             value = DashOption.int_or_none_from_string(value)
             if value is None:
                 return default
             if value < minimum:
                 raise ValueError(f'{value} is less than {minimum}')
+            if maximum is not None and value > maximum:
+                raise ValueError(f'{value} is greater than {maximum}')
             return value
         return int_or_default
 
@@ -82,9 +95,8 @@ class EventBase(ObjectWithFields):
                 input_type = 'checkbox'
                 cgi_choices = (str(dflt), str(not dflt))
             elif isinstance(dflt, int):
-                # events repeat every interval ticks of the timescale
-                minimum = 1 if key in {'interval', 'timescale'} else 0
-                from_string = cls.int_or_default_from_string(dflt, minimum)
+                minimum, maximum = cls.INT_RANGES.get(key, (0, None))
+                from_string = cls.int_or_default_from_string(dflt, minimum, maximum)
                 input_type = 'number'
                 cgi_type = '<int>'
                 cgi_choices = tuple([str(dflt)])
